@@ -301,6 +301,28 @@ type caseCircuit struct {
 	In []frontend.Variable
 }
 
+// zeroDivCircuit: InverseExtension / DivExtension with the divisor as input.
+type zeroDivCircuit struct {
+	Fn   string `gnark:"-"`
+	A, B [2]frontend.Variable
+}
+
+func (c *zeroDivCircuit) Define(api frontend.API) error {
+	chip := gl.New(api)
+	a := gl.QuadraticExtensionVariable{gl.NewVariable(c.A[0]), gl.NewVariable(c.A[1])}
+	b := gl.QuadraticExtensionVariable{gl.NewVariable(c.B[0]), gl.NewVariable(c.B[1])}
+	if c.Fn == "InverseExtension" {
+		o, _ := chip.InverseExtension(a)
+		api.AssertIsEqual(o[0].Limb, o[0].Limb)
+		api.AssertIsEqual(b[0].Limb, b[0].Limb)
+		api.AssertIsEqual(b[1].Limb, b[1].Limb)
+	} else {
+		o, _ := chip.DivExtension(b, a)
+		api.AssertIsEqual(o[0].Limb, o[0].Limb)
+	}
+	return nil
+}
+
 type caseEntry struct {
 	c     fieldCase
 	want  []*big.Int
@@ -653,8 +675,36 @@ func runC08(r *Run) {
 			}
 		}
 		em.Assert("(and " + strings.Join(zs, " ") + ")")
-		r.Add(&Ob{Name: nm + "/zero-rejected", Family: "extension-field", Script: em.String(), Site: nm + " of zero", Bound: "a = 0, all other operands",
-			OnFail: func(res smt.Result) *Violation { return nil }})
+		nm := nm
+		var vals []string
+		for _, at := range e.Atoms {
+			if at.Kind == "input" {
+				vals = append(vals, at.Name)
+			}
+		}
+		r.Add(&Ob{Name: nm + "/zero-rejected", Family: "extension-field", Script: em.String(), Values: vals, Site: nm + " of zero", Bound: "a = 0, all other operands",
+			OnFail: func(res smt.Result) *Violation {
+				// the real function on gnark's test engine with divisor 0 (and the model's dividend)
+				g := func(n string) *big.Int {
+					if v, ok := res.Model[n]; ok {
+						return new(big.Int).Mod(v, P)
+					}
+					return big.NewInt(3)
+				}
+				c := &zeroDivCircuit{Fn: nm}
+				w := &zeroDivCircuit{Fn: nm, A: [2]frontend.Variable{0, 0}, B: [2]frontend.Variable{g("b_0"), g("b_1")}}
+				clearHooks()
+				os.Setenv("USE_BIT_DECOMPOSITION_RANGE_CHECK", "true")
+				var err error
+				pm := catchPanic(func() { quiet(func() { err = test.IsSolved(c, w, R) }) })
+				os.Unsetenv("USE_BIT_DECOMPOSITION_RANGE_CHECK")
+				forgetChips()
+				if pm != "" || err != nil {
+					r.Note("%s with a zero divisor is rejected by the real code (%s)", nm, short(pm+fmt.Sprint(err), 80))
+					return nil
+				}
+				return &Violation{What: nm + " accepts the divisor 0 (plonky2 has no inverse of zero; the constraints must be unsatisfiable)", Replay: map[string]any{"kind": "functional", "family": "extension-field", "case": nm + "/zero-rejected"}, Outcome: "gnark test engine on the real code: satisfied with divisor (0,0) and dividend (" + g("b_0").String() + "," + g("b_1").String() + ")"}
+			}})
 	}
 	r.Bounds["values"] = "all canonical operand values (symbolic)"
 	r.Bounds["configurations"] = fmt.Sprintf("exponents %v; list lengths %v; interpolation sizes %v", exps, lens, sizes)
